@@ -84,7 +84,7 @@ def gateway_run(fams, nontrivial_kinds, also=(), also_fams=None):
 
 
 def confirm(ctx, new):
-    """Re-execute the schedule of each new violation once; only reproduced ones count."""
+    """Re-execute the schedule of each new violation (up to 5 times); only reproduced ones count."""
     out = []
     seen = set()
     for v in new:
@@ -96,8 +96,14 @@ def confirm(ctx, new):
         if s["id"] in seen:
             continue
         seen.add(s["id"])
-        viol, _ = pipeline.rerun_schedule(s, ctx.workdir, ctx.harness())
-        if any(x["p"] == v["p"] for x in viol):
+        # Go map iteration order makes executions of one schedule differ; up to 5 more executions
+        hit = False
+        for _ in range(5):
+            viol, _ = pipeline.rerun_schedule(s, ctx.workdir, ctx.harness())
+            if any(x["p"] == v["p"] for x in viol):
+                hit = True
+                break
+        if hit:
             out.append(v)
         else:
             log("not reproduced:", v["p"], v["why"][:200])
@@ -186,6 +192,10 @@ def throttle_model(ctx):
         g, dist = tlc_stats(p.stdout)
         tot_s += dist
         tot_t += g
+    # unbounded in depth: the safety properties follow from an invariant that Apalache shows inductive (Limit 1..4, <= 7 callbacks)
+    from .common import apalache_inductive
+    shutil.copy(os.path.join(SPEC, "ThrottleInd.tla"), d)
+    ind = apalache_inductive("ThrottleInd.tla", d)
     # direct drive of the real Throttle
     binp = tables.build_fn(ctx.workdir)
     td = os.path.join(ctx.workdir, "thrtrace")
@@ -210,7 +220,8 @@ def throttle_model(ctx):
         for v in json.load(open(vp))[:5]:
             viols.append(dict(p="C19", why="directly driven Throttle: " + v["why"], kf="", confirmed=True))
     cov = dict(states=tot_s, transitions=tot_t, traces_validated_against_impl=1, evaluations=lines, distinct_nontrivial=lines,
-               samples=[{"model": "spec/Throttle.tla limits 1..3, invariants Bounded/Saturated/Consistent/FIFO, liveness AllStart under WF(Done)"}],
+               samples=[{"model": "spec/Throttle.tla limits 1..3, invariants Bounded/Saturated/Consistent/FIFO, liveness AllStart under WF(Done)"},
+                        {"apalache": "spec/ThrottleInd.tla: Init => IndInv, IndInv /\\ Next => IndInv', IndInv => Safety (%d obligations, Limit 1..4, up to 7 callbacks, any depth)" % ind}],
                rule="exhaustive TLC on Throttle.tla; random Add/Done orders on the real Throttle validated step by step by ThrottleTrace.tla", exhaustive=False)
     return dict(coverage=cov, violations=viols, level="model_checking", assumptions=["every started callback eventually calls Done (weak fairness)"])
 
@@ -233,7 +244,11 @@ def cache_model(ctx):
     if "No error has been found" not in p.stdout:
         raise MachineryError("CacheEntry.tla does not satisfy its own properties (model bug):\n" + p.stdout[-2000:])
     g, dist = tlc_stats(p.stdout)
-    cov = dict(states=dist, transitions=g, samples=[{"model": "spec/CacheEntry.tla Subscribers=%s MaxReq=%d MaxPopped=%d; invariants CountIsUses NeverNegative KeptWhileUsed "
+    # any depth: the invariants follow from one that Apalache shows inductive (5 subscribers, MaxReq 1..6, MaxPopped 1..4)
+    from .common import apalache_inductive
+    shutil.copy(os.path.join(SPEC, "CacheEntryInd.tla"), d)
+    ind = apalache_inductive("CacheEntryInd.tla", d)
+    cov = dict(states=dist, transitions=g, samples=[{"apalache": "spec/CacheEntryInd.tla: Init => IndInv, IndInv /\\ Next => IndInv', IndInv => Safety (%d obligations)" % ind}, {"model": "spec/CacheEntry.tla Subscribers=%s MaxReq=%d MaxPopped=%d; invariants CountIsUses NeverNegative KeptWhileUsed "
                                                      "QueuedOnlyIdle IdleIsQueued Gauges SubscribedBeforeFetch; liveness Released under WF" % (subs, req, pop)}],
                rule="exhaustive TLC on CacheEntry.tla; its operators (CacheOps.tla) are replayed on every cache note of the gateway traces by CacheTrace.tla", exhaustive=False)
     return dict(coverage=cov, violations=[], level="model_checking", assumptions=["the eviction timer eventually fires (weak fairness)"])
@@ -242,6 +257,31 @@ def cache_model(ctx):
 PROPS["C09"] = dict(run=tables.combine(cache_model, gateway_run(["cache", "query", "win-evict"], ["msub", "munsub", "mreq", "note"])))
 TEXT["C09"] = _t("spec/CacheEntry.tla (one action per critical section of a cache entry: getSubscription, addSubscriber, Unsubscribe, delete / failed get, request start / end, timer pop, eviction callback) is model-checked exhaustively for count = users, kept while used, idle entries queued, gauges, subscribe-before-fetch and eventual release; on every replayed gateway schedule each cache note (taken inside those critical sections, tag verif) is replayed through the same operators (spec/CacheTrace.tla) and the logged use count, created flag, subscription flag, subscriber-set sizes and eviction outcome must equal the model's; plus MQ boundary rules (get only under an established event subscription, no duplicate subscription), nothing left after the (fake-time) eviction delay, gauges zero.",
                  "TLC exhaustive on CacheEntry.tla + per-note conformance of the real cache entry (CacheTrace.tla) + observer rules on gateway traces")
+
+
+def resqueue_model(ctx):
+    """Exhaustive TLC run of spec/ResQueue.tla (work queue of a cached resource with the query-event lock)."""
+    import os, shutil
+    from .common import SPEC, tlc, tlc_stats, MachineryError
+    d = os.path.join(ctx.workdir, "resqueue-mc")
+    os.makedirs(d, exist_ok=True)
+    shutil.copy(os.path.join(SPEC, "ResQueue.tla"), d)
+    work, lock = (6, 2) if ctx.tier == "quick" else (8, 3)
+    with open(os.path.join(d, "ResQueue.cfg"), "w") as f:
+        f.write("SPECIFICATION Spec\nCONSTANTS\n MaxWork = %d\n MaxLock = %d\n"
+                "INVARIANTS SingleWorker FIFO NoWorkLocked SlotsAccounted NothingStuck NoLostUnlock\nPROPERTIES AllRun\nCHECK_DEADLOCK FALSE\n" % (work, lock))
+    p = tlc("ResQueue.tla", d, [], timeout=3000, workers=8)
+    if "No error has been found" not in p.stdout:
+        raise MachineryError("ResQueue.tla does not satisfy its own properties (model bug):\n" + p.stdout[-2000:])
+    g, dist = tlc_stats(p.stdout)
+    cov = dict(states=dist, transitions=g, samples=[{"model": "spec/ResQueue.tla MaxWork=%d MaxLock=%d; invariants SingleWorker FIFO NoWorkLocked SlotsAccounted NothingStuck NoLostUnlock; liveness AllRun under WF" % (work, lock)}],
+               rule="exhaustive TLC on ResQueue.tla; its transitions are replayed on every queue note of the gateway traces by ResQueueTrace.tla", exhaustive=False)
+    return dict(coverage=cov, violations=[], level="model_checking", assumptions=["every locked slot is eventually given back (query requests are answered or time out)"])
+
+
+PROPS["C13"] = dict(run=tables.combine(resqueue_model, gateway_run(["query", "win-query", "win-alias"], ["mreq", "mres", "note"], also=("C01",))))
+TEXT["C13"] = _t("spec/ResQueue.tla (the resource's work queue: Enqueue, enqueueUnlock, lockEvents, processQueue item by item, worker channel tokens) is model-checked exhaustively: one worker at a time, FIFO, no ordinary work while query-event slots are outstanding, slots accounted, nothing stuck, every enqueued item eventually runs; every queue note of the replayed gateway schedules (taken under the entry's mutex, tag verif) is replayed through the same transitions (spec/ResQueueTrace.tla). On the query families the observer additionally checks: convergence (C01 predicate) per alias rid; per query event no second request for one normalised query, none for a query that is not cached, every still-subscribed continuously cached query asked; no numbered event handed over after the query event delivered while its requests are unanswered; lock released at quiescence, no stall.",
+                 "TLC exhaustive on ResQueue.tla + per-note conformance of the real work queue (ResQueueTrace.tla) + observer rules on gateway traces")
 
 PROPS["C19"] = dict(run=tables.combine(throttle_model, gateway_run(["thr-ref1", "thr-ref2", "thr-reset1", "thr-reset2"], ["note", "mreq"])))
 TEXT["C19"] = _t("spec/Throttle.tla is model-checked exhaustively (bound, saturation, FIFO hand-over, every added callback eventually starts under any answer order); the real Throttle is driven directly and every Add/Done validated against it; at system level the thrAdd/thrDone notes of replayed schedules with reset/reference throttles of 1 and 2 are checked against the same transition rules, the limit, and emptiness at quiescence.",
